@@ -25,6 +25,7 @@ struct Deliv { int pid = 0; std::string msg, sender; int exitcode = -1; bool don
 
 struct Local : Scenario {
   const Config &cfg; std::string mode; std::vector<Deliv> d; std::string host = "host.example"; std::string oldmbox;
+  bool timer_fired = false;   // ALT_SIGNAL: the pending alarm of a delivery process was made to expire
   bool crashed = false; int faults = 0; std::string inputname; std::shared_ptr<Sink> out1, err2;
   std::vector<std::string> actions;   // observed: "program <cmd>", "maildir", "mbox <file>", "forward <sender> -> <rcpts>"
   // C13
@@ -105,6 +106,7 @@ struct Local : Scenario {
     switch (r.op) { case VK_WRITE: case VK_FSYNC: case VK_CLOSE: case VK_FTRUNCATE: case VK_READ: o = w.O(p, r.a[0]); fileop = o && o->kind == K_FILE; break; case VK_OPEN: case VK_LINK: case VK_UNLINK: case VK_FORK: fileop = true; break; case VK_FLOCK: fileop = true; break; default: break; }
     if (!fileop) return;
     if (w.ex->bound[BK_CRASH] > 0 && r.op != VK_READ) { a.push_back({BK_CRASH, ALT_KILL, 0}); a.push_back({BK_CRASH, ALT_MACHINE_CRASH, 0}); }
+    if (w.ex->bound[BK_ENV] > 0 && p.alarm_at > 0 && !timer_fired) a.push_back({BK_ENV, ALT_SIGNAL, SIGALRM});   // the program's own timer (lock wait 30 s, maildir delivery 24 h) runs out before this call: a slow disk
     if (w.ex->bound[BK_FAULT] > 0) {
       switch (r.op) {
         case VK_WRITE: a.push_back({BK_FAULT, ALT_FAIL, ENOSPC}); if (r.a[1] > 1) a.push_back({BK_FAULT, ALT_SHORT, (int) r.a[1] / 2}); break;
@@ -150,6 +152,7 @@ struct Local : Scenario {
     }
   }
   void after_step(World &w, Proc &p, const Step &st) override {
+    if (st.sigraised) { timer_fired = true; faults++; w.counters["timers_expired"]++; return; }   // counted as a fault: the delivery may legitimately be deferred
     if (st.injected && st.err) faults++;
     if (st.op == VK_KILL) { for (auto &x : d) if (x.pid == p.vpid) x.killed = true; anykill = true; w.counters["process_kills"]++; }
     if (mode == "maildir" && (st.op == VK_LINK || st.op == VK_KILL || st.op == VK_RENAME || st.op == VK_WRITE)) check_maildir(w, ("after " + opname(st.op)).c_str());
